@@ -117,6 +117,11 @@ pub fn decode_values(k: Kind, tier: Tier) -> Vec<Vec<u8>> {
                     out.push(v);
                 }
             }
+            // the standard reason phrases, in four spellings, under every code that has one and a few
+            // that do not (a decoder that normalises or interns "known" phrases shows here)
+            for v in standard_reason_values() {
+                out.push(v);
+            }
             // reserved leading bytes are ignored
             out.push(vec![0xFF, 0xFF, 4, 0]);
             out.push(vec![0x12, 0x34, 0xFC, 99]);
@@ -198,6 +203,27 @@ pub fn decode_values(k: Kind, tier: Tier) -> Vec<Vec<u8>> {
     }
     out.sort();
     out.dedup();
+    out
+}
+
+pub fn standard_reason_values() -> Vec<Vec<u8>> {
+    let std: [(u16, &str); 15] = [(301, "Try Alternate"), (400, "Bad Request"), (401, "Unauthorized"), (403, "Forbidden"), (420, "Unknown Attribute"), (437, "Allocation Mismatch"), (438, "Stale Nonce"), (440, "Address Family Not Supported"), (441, "Wrong Credentials"), (442, "Unsupported Transport Protocol"), (443, "Peer Address Family Mismatch"), (486, "Allocation Quota Reached"), (487, "Role Conflict"), (500, "Server Error"), (508, "Insufficient Capacity")];
+    let mut out = Vec::new();
+    let codes: Vec<u16> = std.iter().map(|(c, _)| *c).chain([300, 404, 699]).collect();
+    for code in codes {
+        for (_, phrase) in std.iter().chain([(0u16, "Unknown"), (0, "OK")].iter()) {
+            let first_cap = {
+                let l = phrase.to_lowercase();
+                let mut c = l.chars();
+                c.next().map(|f| f.to_uppercase().collect::<String>() + c.as_str()).unwrap_or_default()
+            };
+            for text in [phrase.to_string(), phrase.to_lowercase(), phrase.to_uppercase(), first_cap, format!("{phrase} "), format!("{phrase}."), format!("{code} {phrase}"), format!("{code}  {phrase}"), format!("{code}: {phrase}"), format!("{code}{phrase}"), format!("{phrase} ({code})"), format!("{code}"), format!("{code} "), format!("{} {phrase}", code + 1)] {
+                let mut v = vec![0, 0, (code / 100) as u8, (code % 100) as u8];
+                v.extend_from_slice(text.as_bytes());
+                out.push(v);
+            }
+        }
+    }
     out
 }
 
@@ -285,6 +311,9 @@ pub fn encode_values(k: Kind, seed: u64) -> Vec<(Vec<u8>, u128)> {
             let mut v = vec![0, 0, 3, 0];
             v.extend("\u{2603}".repeat(127).as_bytes());
             push(v);
+            for v in standard_reason_values() {
+                push(v);
+            }
         }
         Kind::UnknownAttributes => {
             let types: [u16; 4] = [0x0006, 0x7F00, 0x8022, 0xFFFF];
